@@ -40,6 +40,8 @@ var (
 	NShards = int(envUint("VERIF_NSHARDS", 1))
 	// QuickScale multiplies the rapid case counts of the quick tier.
 	QuickScale = int(envUint("VERIF_QUICK_SCALE", 1))
+	// ThoroughScale multiplies the rapid case counts of the thorough tier.
+	ThoroughScale = int(envUint("VERIF_THOROUGH_SCALE", 1))
 )
 
 func envOr(k, d string) string {
@@ -426,6 +428,11 @@ func Prop[C any](t *testing.T, p P, gen func(*rapid.T) C, check func(C, *Rec) er
 		if p.Thorough > 0 && n > p.Thorough {
 			n = p.Thorough
 		}
+	}
+	if Thorough() && ThoroughScale > 1 {
+		// spec.json "thorough_scale": properties whose thorough tier finishes in
+		// a minute or two explore proportionally more cases
+		n *= ThoroughScale
 	}
 	if NShards > 1 {
 		n = (n + NShards - 1) / NShards
